@@ -108,18 +108,28 @@ def sweep(ctx, with_model, full_bits, n_random, only=None, tag='C08'):
     groups, ncases = [], 0
     spec_bad, model_bad = [], []
     batch_no = [0]
+    model_failed = [None]
 
     def flush():
         nonlocal groups, ncases
         if not groups: return
         t0 = time.time()
-        res = coq_compare('%s_b%d' % (tag, batch_no[0]), groups, with_model)
+        wm = with_model and not model_failed[0]
+        try:
+            res = coq_compare('%s_b%d' % (tag, batch_no[0]), groups, wm)
+        except RuntimeError as ex:
+            if not wm: raise
+            # the model terms do not evaluate over the regenerated primitives (tie broken): go on with implementation vs spec
+            model_failed[0] = str(ex)[-1500:]
+            ctx.log('model terms do not evaluate over the regenerated primitives; continuing with implementation vs spec')
+            wm = False
+            res = coq_compare('%s_b%d' % (tag, batch_no[0]), groups, False)
         batch_no[0] += 1
         for (blk, cfg, ins_list, outs, ow), bad in zip(groups, res):
             for (k, so, mo) in bad:
                 rec = {'block': blk.name, 'config': cfg, 'inputs': ins_list[k], 'impl': outs[k]}
                 if so != outs[k]: spec_bad.append(dict(rec, spec=so))
-                if with_model and mo != outs[k]: model_bad.append(dict(rec, model=mo))
+                if wm and mo != outs[k]: model_bad.append(dict(rec, model=mo))
         ctx.log('batch %d: %d configs, %d cases, coq %.1fs' % (batch_no[0], len(groups), ncases, time.time() - t0))
         groups, ncases = [], 0
 
@@ -142,6 +152,7 @@ def sweep(ctx, with_model, full_bits, n_random, only=None, tag='C08'):
             groups.append((blk, cfg, ins_list, outs, ow)); ncases += len(ins_list)
             if ncases >= 40000: flush()
     flush()
+    if model_failed[0]: ctx.notes['model_terms_failed'] = model_failed[0]
     return spec_bad, model_bad
 
 
@@ -190,7 +201,9 @@ def run(ctx):
     missing = ctx.regen(c08_blocks.NEEDED)
     r = ctx.prove(['Properties/C08.v'])
     mb = common.build(['Model/StructLogic.vo', 'Spec/C08.vo'], timeout=600)
-    with_model = mb['ok']
+    sig_changes = c08_blocks.signature_changes(ctx.gen['sigs'])       # e.g. a propagate() that stopped reading an attribute
+    if sig_changes: ctx.notes['generated_signature_changes'] = sig_changes
+    with_model = mb['ok'] and not sig_changes
     if not with_model:
         sb = common.build(['Spec/C08.vo'], timeout=600)
         if not sb['ok']:
@@ -203,7 +216,7 @@ def run(ctx):
     spec_bad, model_bad = sweep(ctx, with_model, full_bits, n_random)
     known_checks(ctx)
     pol_ok = pol['mid'] is not None and pol['eqw'] is not None
-    tie_ok = (not missing) and r['ok'] and with_model and not model_bad and pol_ok
+    tie_ok = (not missing) and r['ok'] and with_model and not model_bad and pol_ok and 'model_terms_failed' not in ctx.notes
     reported = False
     for rec in spec_bad:
         if is_known(ctx, rec): continue
@@ -230,6 +243,7 @@ def run(ctx):
         else:
             what = ('the internal widths of Xor2 / Equal follow none of the formulas the models know (mid_a, mid_max / eqw_a, eqw_max): %s' % pol['probed'] if not pol_ok else
                     'translator rejected %s: %s' % (missing, {k: ctx.gen['errors'].get(k) for k in missing}) if missing else
+                    'the generated primitives changed their parameter lists (models no longer apply): %s' % sig_changes if sig_changes else
                     'Model/StructLogic.v no longer builds over the regenerated primitives: %s' % mb.get('msg') if not with_model else
                     'proof obligation no longer checks: %s in %s' % (r.get('lemma'), r.get('file')))
             ctx.violation({'what': what, 'theorem': r.get('lemma'), 'file': r.get('file'), 'coq_error': r.get('msg')}, found_input=False)
